@@ -64,9 +64,9 @@ func checkC04(c *Ctx) {
 	r.Explanation = "Decides structural necessary conditions of C04 on cron/parser.go, cron/spec.go, cron/constantdelay.go and cron/doc.go. " +
 		"Tables (E6): the six bounds tables equal the 'Allowed values' table of doc.go (seconds: the range of time.Time.Second) and stay below the star bit; month/weekday names map to the numbering of time.Month/time.Weekday; places/defaults have one entry per field in expression order and each default lies within its bounds; an omitted optional column is filled with the default of its own field at its own end; the seven predefined schedules of parseDescriptor, folded to constants, equal the 'Equivalent To' column of doc.go encoded with the parser's own getBits/all, and all() carries the star bit. " +
 		"Pairing: Parse builds SpecSchedule.F from expression column F with the bounds table of F; Next/dayMatches test SpecSchedule.F against the time.Time accessor of F (Month-Month, Dom-Day, Dow-Weekday, Hour, Minute, Second); dayMatches, evaluated for all 16 assignments of (dom matches, dow matches, dom has star, dow has star), is 'both' when a star is present and 'either' otherwise. " +
-		"Search (minimality): every search loop of Next continues while the bit is clear and leaves when it is set, advances by at most one unit of its field, resets all lower-order fields in the same iteration as the advance (before it, for months), and on a carry into the next higher field goes back to the top of the search so that the higher fields are verified again — the carry must be detected by a test that still fires when the smallest value of the field does not exist on the wall clock (DST gap at local midnight / 30-minute DST); the search starts exactly at t truncated to the second plus one second (linear form in t.Nanosecond()), is bounded by start year + 5 with the zero time returned beyond, uses the schedule's Location and never a fixed zone. " +
-		"Refusal (E7+E2): every error produced in the parser layer reaches Parse's error result (including the first-error-wins cell of the field closure); getBits is only called under start>=min, end<=max, start<=end, step!=0 (facts may be established by a validation helper whose nil returns are consulted); normalizeFields succeeds only with a two-sided check of the number of fields; the int->uint conversion of a parsed number is dominated by a non-negativity check; '@every' goes through Every, Every stores a Delay >= 1 s, and ConstantDelaySchedule.Next is t.Add(Delay - t.Nanosecond()). " +
-		"NOT decided: the numerical result of Next as such — that the instant returned is the earliest matching one for every expression, start instant and zone (in particular the day loop's DST midnight fix-ups and repeated hours at fall-back); that Every rounds to whole seconds; the exact bit patterns getBits/getRange produce for ranges, steps ('N/step', '*/n' losing the star bit) and lists; that the lower bound in the field-count check is the right number; acceptance of oddities such as '*-5' or ','."
+		"Search (minimality): every search loop of Next continues while the bit is clear and leaves when it is set, advances by at most one unit of its field, resets all lower-order fields in the same iteration as the advance (before it, for months), and on a carry into the next higher field goes back to the top of the search so that the higher fields are verified again — the carry test must look at the instant the loop continues with (no Add/AddDate fix-up between the test and the next iteration) and must be detected by a test that still fires when the smallest value of the field does not exist on the wall clock (DST gap at local midnight / 30-minute DST); the search starts exactly at t truncated to the second plus one second (linear form in t.Nanosecond()), is bounded by start year + 5 with the zero time returned beyond, uses the schedule's Location and never a fixed zone. " +
+		"Refusal (E7+E2): every error produced in the parser layer reaches Parse's error result (including the first-error-wins cell of the field closure); getBits is only called under start>=min, end<=max, start<=end, step!=0 (facts may be established by a validation helper whose nil returns are consulted); on every decision-consistent path of getRange with a parsed step and a single parsed start value the end handed to getBits is the field maximum (doc.go: 'N/... means N-MAX/...'), independently of the step's value; normalizeFields succeeds only with a two-sided check of the number of fields; the int->uint conversion of a parsed number is dominated by a non-negativity check; '@every' goes through Every, Every stores a Delay >= 1 s, and ConstantDelaySchedule.Next is t.Add(Delay - t.Nanosecond()). " +
+		"NOT decided: the numerical result of Next as such — that the instant returned is the earliest matching one for every expression, start instant and zone (in particular the day loop's DST midnight fix-ups and repeated hours at fall-back); that Every rounds to whole seconds; the exact bit patterns getBits/getRange produce for ranges, steps ('*/n' losing the star bit) and lists; that the lower bound in the field-count check is the right number; acceptance of oddities such as '*-5' or ','."
 	r.Assumptions = append(r.Assumptions,
 		"time.Time accessors, time.Date, Add, AddDate, Truncate, In behave as documented; time zones with a DST gap starting at local midnight (e.g. America/Havana, America/Sao_Paulo before 2019) and with 30-minute DST (Australia/Lord_Howe) exist in the tz database",
 		"bounds values only come from the six package-level tables (checked: no other composite literal of type bounds, no store to the tables outside init)",
@@ -89,6 +89,7 @@ func checkC04(c *Ctx) {
 	r.Rule("C04.N4-zone", "Next converts into SpecSchedule.Location, builds wall-clock times only in that location (or t's own for time.Local) and starts from a whole second", 3)
 	r.Rule("C04.P4-errflow", "every error produced in the parser layer is returned (or parked in the first-error cell that Parse checks before succeeding)", 29)
 	r.Rule("C04.P4-range", "getBits is called only under start>=min, end<=max, start<=end, step!=0", 8)
+	r.Rule("C04.P5-nstep", "doc.go 'N/... means N-MAX/...': on every consistent path of getRange with a parsed step and a single parsed start value, the end handed to getBits is the field maximum, independently of the step's value", 1)
 	r.Rule("C04.P4-count", "normalizeFields succeeds only after a lower and an upper check of the number of fields", 2)
 	r.Rule("C04.P4-nonneg", "a parsed number is converted to unsigned only after a non-negativity check", 1)
 	r.Rule("C04.D1-descriptors", "each predefined schedule folds to the encoding of its 'Equivalent To' expression in cron/doc.go", 7)
